@@ -40,27 +40,7 @@ pub fn tokenize(source: &str, file_id: &FileId) -> (Vec<Token>, Vec<Diagnostic>)
                     text: lexer.slice().into(),
                 });
 
-                match token_type {
-                    TokenType::Newline => {
-                        line += 1;
-                        col = 0;
-                    }
-                    TokenType::Comment => {
-                        // Comments can have new lines embedded
-                        for c in lexer.slice().chars() {
-                            match c {
-                                '\n' => {
-                                    line += 1;
-                                    col = 0;
-                                }
-                                _ => {
-                                    col += 0;
-                                }
-                            }
-                        }
-                    }
-                    _ => col += lexer.span().len(),
-                }
+                advance_position(lexer.slice(), &mut line, &mut col);
             }
             Err(_) => {
                 let span = lexer.span();
@@ -78,12 +58,27 @@ pub fn tokenize(source: &str, file_id: &FileId) -> (Vec<Token>, Vec<Diagnostic>)
                             col + 1,
                         ),
                     ),
-                ))
+                ));
+                advance_position(lexer.slice(), &mut line, &mut col);
             }
         }
     }
 
     (tokens, diagnostics)
+}
+
+/// Advances the line and column over the text that was consumed. Only a line
+/// feed starts a new line; every other character advances the column (in bytes,
+/// like the span) including characters in comments and strings.
+fn advance_position(text: &str, line: &mut usize, col: &mut usize) {
+    for c in text.chars() {
+        if c == '\n' {
+            *line += 1;
+            *col = 0;
+        } else {
+            *col += c.len_utf8();
+        }
+    }
 }
 
 #[cfg(test)]
